@@ -1,18 +1,34 @@
 #!/bin/bash
-# usage: seedmatrix.sh [budget]   — applies every change under /verif/seeded/ to /repo in turn,
-# runs the quick check of its own property (and the extra checks named in meta.json "also"),
-# reverts /repo, and writes /verif/seeded/MATRIX.txt (one line per change).
+# usage: seedmatrix.sh [budget] [new]  — applies every change under /verif/seeded/ to /repo in turn,
+# runs the quick check that was recorded for it when it was stored (meta.json "checks_run";
+# default: the check of its own property), reverts /repo, and writes /verif/seeded/MATRIX.txt
+# (one line per change). With "new" as second argument only changes that have no line yet are run
+# and their lines are appended.
 export GOFLAGS=-mod=mod GOPROXY=off GOSUMDB=off GOTOOLCHAIN=local
 B=${1:-20}
 OUT=/verif/seeded/MATRIX.txt
 [ -z "$(git -C /repo status --porcelain)" ] || { echo "/repo dirty"; exit 2; }
-: > $OUT.tmp
+if [ "$2" = new ]; then cp $OUT $OUT.tmp; else : > $OUT.tmp; fi
 for d in /verif/seeded/C*/; do
   n=$(basename $d); P=${n%%-*}
+  if [ "$2" = new ] && grep -q "^$n " $OUT; then continue; fi
+  C=$(python3 -c "
+import json,re
+m=json.load(open('$d/meta.json'))
+ids=[re.match(r'C\d\d',x).group(0) for x in m.get('checks_run',[]) if re.match(r'C\d\d',x)]
+print(' '.join(ids) if ids else '$P')")
   git -C /repo apply $d/patch.diff 2>/dev/null || { echo "$n patch-does-not-apply" >> $OUT.tmp; continue; }
-  O=$(/verif/bin/check $P --no-evidence --budget $B 2>&1); rc=$?
+  line="$n"
+  for c in $C; do
+    # the port-exhaustion profile of C02/C03 is rare in the quick tier: changes that need it say so in their summary
+    unset VERIF_C02_EXHAUST
+    if grep -qi "16384\|exhaust" $d/meta.json && { [ $c = C02 ] || [ $c = C03 ]; }; then export VERIF_C02_EXHAUST=1; fi
+    O=$(/verif/bin/check $c --no-evidence --budget $B 2>&1); rc=$?
+    cl=$(echo "$O" | grep -m1 "class=" | sed 's/^ *//' | cut -d' ' -f1)
+    line="$line $c:rc=$rc $cl"
+  done
+  unset VERIF_C02_EXHAUST
   git -C /repo checkout -- .
-  cl=$(echo "$O" | grep -m1 "class=" | sed 's/^ *//' | cut -d' ' -f1)
-  echo "$n rc=$rc $cl" >> $OUT.tmp
+  echo "$line" >> $OUT.tmp
 done
 mv $OUT.tmp $OUT
